@@ -23,6 +23,7 @@ fn factory_for(id: &str) -> Option<(&'static str, Factory)> {
         "C03" => ("C03", |t| Box::new(props::c03::C03::new(t)) as Box<dyn Property>),
         "C12" => ("C12", |t| Box::new(props::c12::C12::new(t)) as Box<dyn Property>),
         "C04" => ("C04", |t| Box::new(props::c04::C04::new(t)) as Box<dyn Property>),
+        "C07" => ("C07", |t| Box::new(props::c07::C07::new(t)) as Box<dyn Property>),
         "C08" => ("C08", |t| Box::new(props::c08::C08::new(t)) as Box<dyn Property>),
         "C15" => ("C15", |t| Box::new(props::c15::C15::new(t)) as Box<dyn Property>),
         "C14" => ("C14", |t| Box::new(props::c14::C14::new(t)) as Box<dyn Property>),
